@@ -3,6 +3,7 @@ package main
 // flow.go — E2: dominance, guards, must-pass-through, call order on go/ssa CFGs.
 
 import (
+	"go/constant"
 	"go/token"
 	"go/types"
 
@@ -644,4 +645,78 @@ func phiLeaves(v ssa.Value) []ssa.Value {
 	}
 	rec(v)
 	return out
+}
+
+// reachUnder: is target reachable from fn's entry when every If whose condition is decided by
+// assume (through negation) only follows the decided edge? A plain graph search: no path
+// enumeration, conditions merged by phis are treated as unknown.
+func reachUnder(fn *ssa.Function, target ssa.Instruction, assume func(v ssa.Value) Tri) bool {
+	var eval func(v ssa.Value) Tri
+	eval = func(v ssa.Value) Tri {
+		switch x := v.(type) {
+		case *ssa.UnOp:
+			if x.Op == token.NOT {
+				return eval(x.X).not()
+			}
+		case *ssa.Const:
+			if x.Value != nil && x.Value.Kind() == constant.Bool {
+				return tri(constant.BoolVal(x.Value))
+			}
+		}
+		return assume(v)
+	}
+	seen := map[*ssa.BasicBlock]bool{}
+	st := []*ssa.BasicBlock{fn.Blocks[0]}
+	for len(st) > 0 {
+		b := st[len(st)-1]
+		st = st[:len(st)-1]
+		if seen[b] {
+			continue
+		}
+		seen[b] = true
+		if b == target.Block() {
+			return true
+		}
+		if iff, ok := b.Instrs[len(b.Instrs)-1].(*ssa.If); ok {
+			switch eval(iff.Cond) {
+			case T:
+				st = append(st, b.Succs[0])
+			case F:
+				st = append(st, b.Succs[1])
+			default:
+				st = append(st, b.Succs...)
+			}
+			continue
+		}
+		st = append(st, b.Succs...)
+	}
+	return false
+}
+
+// returnsNilError: every return of fn yields a nil constant as result idx, directly or by
+// forwarding the same result of a module function for which this holds.
+func (a *A) returnsNilError(fn *ssa.Function, idx int, depth int) bool {
+	if fn == nil || fn.Blocks == nil || depth > 4 {
+		return false
+	}
+	for _, b := range fn.Blocks {
+		ret, ok := b.Instrs[len(b.Instrs)-1].(*ssa.Return)
+		if !ok || len(ret.Results) <= idx {
+			continue
+		}
+		for _, leaf := range phiLeaves(ret.Results[idx]) {
+			if k, ok := leaf.(*ssa.Const); ok && k.Value == nil {
+				continue
+			}
+			if ex, ok := leaf.(*ssa.Extract); ok {
+				if c, ok := ex.Tuple.(*ssa.Call); ok {
+					if cal := c.Call.StaticCallee(); cal != nil && a.fnInModule(cal) && a.returnsNilError(cal, ex.Index, depth+1) {
+						continue
+					}
+				}
+			}
+			return false
+		}
+	}
+	return true
 }
